@@ -8,7 +8,7 @@ import props.C06 as C06
 RULE = ('grammar scripts (comments in any gap, hints) x {strip_comments, keyword_case upper/lower/capitalize, identifier_case upper/lower/capitalize, truncate_strings N (+truncate_char)} alone and combined with layout options; '
         'each output re-lexed and compared token by token; each filter applied to its own output; non-trivial = distinct (script, filter options)')
 ASSUMPTIONS = ['conversion idempotence of str.upper/lower/capitalize (validated on all code points by S-CASE in the filters validation)', 'lexical bridge by re-lexing with the real lexer']
-PARTIAL = ['no-fusing and end-to-end idempotence are oracle-checked; known findings KF-C08-1..3']
+PARTIAL = ['no-fusing and end-to-end idempotence are oracle-checked (lexical bridge); known findings KF-C08-1..6']
 
 
 def toks(text):
@@ -55,8 +55,10 @@ def check_filter(ctx, text, opts, layout):
         got.append((ttname(tt), oracles.norm_kw(tt, v) if not opts.get('keyword_case') or not (tt in T.Keyword) else ' '.join(v.split())))
     if got != exp:
         k = next((i for i, (x, y) in enumerate(zip(got, exp)) if x != y), min(len(got), len(exp)))
+        nh = lambda l: sum(1 for t, _ in l if 'Hint' in t)
+        rest = lambda l: [x for x in l if 'Hint' not in x[0]]
         ctx.fail('filter changed something other than its targets (or fused/split tokens)', text, observed=got[max(0, k - 2):k + 3], required=exp[max(0, k - 2):k + 3],
-                 options=repr(allopts), output=out[:300])
+                 options=repr(allopts), output=out[:300], hints_expected=nh(exp), hints_got=nh(got), comments_expected=sum(1 for t, _ in exp if t.startswith('Comment')), comments_got=sum(1 for t, _ in got if t.startswith('Comment')), only_hints_differ=rest(exp) == rest(got))
         return
     if out2 != out and not layout:
         ctx.fail('applying the filter to its own output changes it', text, observed=out2[:300], required=out[:300], options=repr(allopts))
@@ -117,10 +119,33 @@ def cuts_doubled_quote(text, n):
     return False
 
 
+def hint_after_comment_with_gap(text):
+    """an optimizer hint preceded, within the same run of comments/whitespace, by an ordinary comment with whitespace in between"""
+    toks = oracles.lex(text)
+    for i, (tt, v) in enumerate(toks):
+        if is_hint(tt):
+            j = i - 1
+            gap = False
+            while j >= 0 and (toks[j][0] in T.Whitespace or toks[j][0] in T.Comment):
+                if toks[j][0] in T.Whitespace:
+                    gap = True
+                elif not is_hint(toks[j][0]) and (gap or toks[j][0] in T.Comment.Single):
+                    return True
+                j -= 1
+    return False
+
+
 def classify(f, kf):
     import re
     opts = str(f.get('options'))
     for k in kf:
+        if k['id'] == 'KF-C08-6' and "'strip_comments': True" in opts and re.search(r'(^\s*|\()(/\*.*?\*/|--[^\n]*\n|# [^\n]*\n)(/\*|--|# )', f['input'], re.S) \
+                and f.get('comments_got', 0) > f.get('comments_expected', 0):
+            return k['id']
+        if k['id'] == 'KF-C08-5' and "'strip_comments': True" in opts and 'changed something other' in f['what']:
+            missing_hint = f.get('only_hints_differ') and f.get('hints_got', 0) < f.get('hints_expected', 0)
+            if missing_hint and hint_after_comment_with_gap(f['input']):
+                return k['id']
         if k['id'] == 'KF-C08-4' and 'truncate_strings' in opts:
             m = re.search(r"'truncate_strings': (\d+)", opts)
             if m and cuts_doubled_quote(f['input'], int(m.group(1))):
